@@ -480,7 +480,7 @@ def write_big_io_cases(path, seed, tier, what):
     out = []
     if what == "bin":
         for d in (True, False):
-            out.append({"k": "big_bin", "dir": d, "w": 0, "n": 300, "m": 700 if q else 5000, "seed": rng.randint(1, 10 ** 6), "high": True})
+            out.append({"k": "big_bin", "dir": d, "w": 0, "n": 300, "m": (4500 if d else 700) if q else 5000, "seed": rng.randint(1, 10 ** 6), "high": True})
             out.append({"k": "big_bin", "dir": d, "w": 2, "n": 258, "m": 400, "seed": rng.randint(1, 10 ** 6), "high": True})
             out.append({"k": "big_bin", "dir": d, "w": 4, "n": 70, "m": 300, "seed": rng.randint(1, 10 ** 6)})
             if not q:
@@ -489,7 +489,7 @@ def write_big_io_cases(path, seed, tier, what):
                 out.append({"k": "big_bin", "dir": d, "w": 0, "n": 70000, "m": 50, "seed": rng.randint(1, 10 ** 6), "high": True})
     else:
         for d in (True, False):
-            out.append({"k": "big_text", "dir": d, "codec": "none", "n": 300, "m": 600 if q else 5000, "seed": rng.randint(1, 10 ** 6), "high": True})
+            out.append({"k": "big_text", "dir": d, "codec": "none", "n": 300, "m": (4500 if d else 600) if q else 5000, "seed": rng.randint(1, 10 ** 6), "high": True})
             out.append({"k": "big_text", "dir": d, "codec": "string", "n": 40, "m": 150, "seed": rng.randint(1, 10 ** 6)})
             out.append({"k": "big_text", "dir": d, "codec": "int", "n": 120, "m": 200 if q else 4500, "seed": rng.randint(1, 10 ** 6)})
             # hand-made: long comments (beyond 256 / 1024 / 4096 characters), long runs of whitespace
